@@ -86,6 +86,9 @@ func (ex *Exec) block(g *G, ch *ChanObj, what string) {
 }
 
 func (ex *Exec) wake(g *G) {
+	if ex.Sched == 2 {
+		ex.yield = true
+	}
 	g.status = gRunnable
 	g.waitCh = nil
 	g.waitWhat = ""
